@@ -328,7 +328,7 @@ def jv_dec(x):
         if tok in ('NaN', 'Infinity', '-Infinity'):
             return ('float', tok)
         if any(c in tok for c in '.eE'):
-            return ('float', float.__repr__(float(tok)))
+            return py_canon(float(tok))       # (a token such as 1E+999 is read as infinity)
         return ('int', int(tok))
     if tag == 3:
         return ('str', dstr(x[1]))
